@@ -152,7 +152,7 @@ def validC (cs : Contours) : Bool :=
     (edges r).all fun e => (edges s).all fun f => !segsMeet e.1 e.2 f.1 f.2
 
 def Valid : Operand → Bool
-  | .box mn mx => decide (mn.x < mx.x) && decide (mn.y < mx.y)
+  | .box mn mx => decide (mn.x < mx.x) && decide (mn.y < mx.y) && validC [rect mn mx]
   | A => validC A.rings
 
 /-- boundaries in general position: no vertex of one on an edge of the other, hence no shared
@@ -191,9 +191,12 @@ def CoreSpec (core : Op → Contours → Contours → Contours) : Prop :=
 
 /-! ## per-case oracle (exact `Rat`): sample points with a clear margin from every input edge -/
 
-def sortDedup (l : List Rat) : List Rat :=
-  let s := l.mergeSort (fun a b => decide (a ≤ b))
-  s.foldr (fun a acc => match acc with | b :: _ => if a = b then acc else a :: acc | [] => [a]) []
+/-- insert into a sorted list without duplicates (structural, so that the kernel can evaluate it) -/
+def insertSorted (a : Rat) : List Rat → List Rat
+  | [] => [a]
+  | b :: r => if a < b then a :: b :: r else if a = b then b :: r else b :: insertSorted a r
+
+def sortDedup (l : List Rat) : List Rat := l.foldr insertSorted []
 
 /-- cell centres of a sorted coordinate list, plus one point beyond each end -/
 def centres : List Rat → List Rat
